@@ -185,6 +185,12 @@ def handle_quic_packet(packet: Packet, keylog, quic_sessions: list[QuicSession],
 
 def run():
     """Starts the program"""
+    # nothing processed by an earlier run() in the same interpreter may leak into this one
+    server_ports[:] = [443, 44330]
+    keylog.clear()
+    sessions.clear()
+    quic_sessions.clear()
+
     args = arg_parser_init()
     keep_original_ports = args.keep_original_ports
     portmap = get_port_map(args)
